@@ -274,7 +274,12 @@ class Lib:
     if isinstance(recv, VListRef):
       if name in ('append', 'add'):
         L = dict(p.lists[recv.lid])
-        L['elem'] = args[0]
+        if L.get('einv') is not None and isinstance(args[0], VTuple) and all(isinstance(x, VInt) for x in args[0].items):
+          # the sidecar declared an element invariant for this list: the new element must satisfy it; the generic sample stays generic
+          p.side.append(('list-elem-inv', 'element-added-at-L%s' % cx.line(), list(p.pc), L['einv']([x.t for x in args[0].items]),
+                         'every element added to the list satisfies its declared element invariant'))
+        else:
+          L['elem'] = args[0]
         p.lists[recv.lid] = L
         return [(p, VNone())]
       if name in ('difference_update', 'update', 'discard', 'remove'):
